@@ -91,6 +91,12 @@ func (in *Interp) unwrapErr(v Val, site ssa.CallInstruction) (Val, bool) {
 	if !ok {
 		return nil, false
 	}
+	if _, st, isOS := osStructErr(v); isOS {
+		if e := structFieldByName(st, "Err"); e != nil && !isNilVal(e) {
+			return e, true
+		}
+		return nil, false
+	}
 	switch e := iv.V.(type) {
 	case *ErrObj:
 		if e.Wrapped != nil {
@@ -121,6 +127,28 @@ func (in *Interp) errText(v Val, site ssa.CallInstruction) Val {
 	iv, ok := v.(Iface)
 	if !ok {
 		return SymStr{Key: "text(" + keyOf(v) + ")"}
+	}
+	if kind, st, isOS := osStructErr(v); isOS {
+		// PathError: Op + " " + Path + ": " + Err; LinkError: Op Old New: Err;
+		// SyscallError: Syscall + ": " + Err
+		hp := false
+		var ks []string
+		for _, c := range st.F {
+			f := c.Get()
+			if hostPath(f) {
+				hp = true
+			}
+			if fi, isI := f.(Iface); isI {
+				t := in.errText(fi, site)
+				if hostPath(t) {
+					hp = true
+				}
+				ks = append(ks, keyOf(t))
+			} else {
+				ks = append(ks, keyOf(f))
+			}
+		}
+		return SymStr{Key: kind + "(" + strings.Join(ks, " ") + ")", HostPath: hp}
 	}
 	switch e := iv.V.(type) {
 	case *ErrObj:
@@ -412,6 +440,12 @@ func (in *Interp) errorsAs(err, target Val, site ssa.CallInstruction) bool {
 func (in *Interp) osIs(err Val, sentinel string, site ssa.CallInstruction) bool {
 	iv, ok := err.(Iface)
 	if !ok {
+		return false
+	}
+	if _, st, isOS := osStructErr(err); isOS {
+		if e := structFieldByName(st, "Err"); e != nil {
+			return in.osIs(e, sentinel, site)
+		}
 		return false
 	}
 	if e, ok := iv.V.(*ErrObj); ok {
